@@ -64,6 +64,8 @@ Expected(v, L, d) ==
     [] d.k = "datagram" -> IF L.dgram < 0 \/ d.len > L.dgram THEN 10 ELSE 0
     [] d.k = "crypto" -> IF d.off >= 16384 + 1 THEN 13 ELSE 0
     [] d.k = "ackunsent" -> 10
+    \* an ACK frame whose last additional range runs below packet number zero cannot be decoded
+    [] d.k = "ackrange" -> 7
     [] d.k = "ackfreq" -> IF d.mad < 1000 THEN 10 ELSE 0
     [] d.k = "unknown" -> 7
     [] d.k = "truncated" -> 7
